@@ -85,7 +85,11 @@ PROPS = {
         ],
         'rule': 'every S-read and S-atom string is read with a Trace; the complete dump (every atom range up to two ids past the end, every key '
                 'of the bond table in both directions, every ring-closure range) is compared with the model, accepted or not. non-trivial = at '
-                'least one atom read',
+                'least one atom read. soak: four families of 10^5 (thorough 10^6) atoms whose cursors lie beyond 16 bits (ring closure after a long '
+                'chain, alternating bond symbols, dot-separated rings, branches), every atom range, ring-closure range and bond cursor in both '
+                'directions compared with the independent interpreter',
+        'soak': {'quick': [('trace:ringtail', 100000), ('trace:bondchain', 100000), ('trace:ringlist', 100000), ('trace:comb', 100000)],
+                 'thorough': [('trace:ringtail', 1000000), ('trace:bondchain', 1000000), ('trace:ringlist', 1000000), ('trace:comb', 1000000)]},
         'assumptions': ASSUME_COMMON,
     },
     'C04': {
